@@ -69,15 +69,16 @@ Proof.
   intros (Hne & Hpos & HL & Hin). unfold C16Big.import_spz_lines, C16Big.export_spz_lines, C16Big.import_spz_stream.
   rewrite <- (app_nil_r (to_stream _)), (readline_cons T). cbn [fst snd]. cbn [String.eqb Ascii.eqb Bool.eqb].
   unfold rd_shape_z. rewrite to_stream_app, <- app_assoc, (readline_cons T). cbn [fst snd]. rewrite (readline_cons T). cbn [fst snd].
-  cbn [head_int int_tok bindo]. rewrite all_ints_Int. cbn [bindo]. rewrite Z.eqb_refl. cbn [negb orb].
-  assert (E0 : Nat.eqb (length (zshape S)) 0 = false) by (destruct (zshape S); [congruence|reflexivity]).
-  rewrite E0. cbn [bindo fst snd].
+  cbn [head_int int_tok bindo]. rewrite all_ints_Int. cbn [bindo]. rewrite Z.eqb_refl. cbn [negb].
+  cbn [bindo fst snd].
   replace (forallb (fun z => (0 <=? z)%Z) (zshape S)) with true.
   2:{ symmetry. apply forallb_forall. intros z Hz. rewrite Forall_forall in Hpos. apply Z.leb_le. auto. }
   change (to_stream []) with (@nil (option token)). cbn [app]. rewrite (readline_cons T). cbn [fst snd head_int int_tok bindo].
   unfold nat_of. destruct (Z.leb_spec 0 (Z.of_nat (length (zsubs S)))); [|lia]. cbn [bindo]. rewrite Nat2Z.id, app_nil_r.
   assert (HE : length (zsubs S) = length (combine (zsubs S) (zvals S))) by (rewrite combine_length; lia).
-  rewrite HE, rd_zentries_lines.
+  assert (E0 : Nat.eqb (length (zshape S)) 0 && negb (Nat.eqb (length (zsubs S)) 0) = false).
+  { destruct (zshape S) as [|d sh]; [|reflexivity]. now rewrite (Hne eq_refl). }
+  rewrite E0. rewrite HE, rd_zentries_lines.
   - cbn [bindo]. rewrite map_fst_combine, map_snd_combine by auto.
     replace (forallb (inbz (zshape S)) (zsubs S)) with true; [now destruct S|].
     symmetry. apply forallb_forall. rewrite Forall_forall in Hin. auto.
@@ -146,6 +147,7 @@ Proof.
     remember (map Z.to_nat (fst sh)) as shn eqn:Eshn. clear Eshn Epos. rewrite <- Esh. clear Esh.
     rewrite rd_zentries_nat, !map_length.
     destruct (rd_entries_l b (length shn) nz _) as [es|]; [|reflexivity]. cbn [option_map bindo].
+    unfold order0_bad. destruct (Nat.eqb (length shn) 0 && negb (Nat.eqb nz 0)); [reflexivity|].
     replace (forallb (inbz (map Z.of_nat shn)) (map fst (map zent es))) with (forallb (inb shn) (map fst es)).
     2:{ clear. induction es as [|e es IHes]; [reflexivity|]. cbn [map forallb zent fst]. now rewrite IHes, inbz_nat. }
     destruct (forallb (inb shn) (map fst es)); [|reflexivity]. cbn [as_sp option_map]. unfold spz_of. cbn [sshape ssubs svals].
@@ -156,6 +158,7 @@ Proof.
     destruct (String.eqb w "ktensor"); [|reflexivity].
     destruct (rd_shape_z T _) as [sh|]; [|reflexivity]. cbn [bindo].
     destruct (head_int T _) as [zn|]; [|reflexivity]. cbn [bindo]. destruct (nat_of zn) as [nz|]; [|reflexivity]. cbn [bindo].
+    destruct (Nat.eqb (length (fst sh)) 0); [destruct (Nat.eqb nz 0); reflexivity|].
     destruct (C16Lines.rd_factors_l D T parse ofZ _ _ _); reflexivity.
 Qed.
 
